@@ -42,7 +42,7 @@ def Repeatable (v : Variant) (ok : List Ev → Prop) : Prop :=
 /-- (iv) uses a `type='any'` argument -/
 def usesAny (d : List Ev) : Bool := d.any (fun e => e == Ev.arg ArgTy.any)
 /-- (ii) assigns a TeX register -/
-def assignsReg (d : List Ev) : Bool := d.any (fun e => match e with | .assign _ _ => true | _ => false)
+def assignsReg (d : List Ev) : Bool := d.any (fun e => match e with | .assign _ _ => true | .copy _ _ => true | _ => false)
 /-- (iii) changes class-level attributes through the document class … -/
 def patchesClass (d : List Ev) : Bool := d.any (fun e => e == Ev.docclass Cls.article)
 /-- … or through new column types -/
